@@ -134,9 +134,9 @@ def _expand(node, fname: str, v):
             yield f"{fname}.{g.name}", getattr(v, g.name)
         return
     if isinstance(node, DataWrapper) and fname == "data":
-        if not isinstance(v, np.ndarray):
+        if not isinstance(v, (np.ndarray, np.generic)):
             raise SerError(f"wrapped data of type {type(v).__name__}")
-        a = np.ascontiguousarray(v)
+        a = np.ascontiguousarray(v) if isinstance(v, np.ndarray) else np.asarray(v)
         yield "data.contents", hashlib.sha256(a.tobytes()).hexdigest()[:32]
         yield "data.dtype", a.dtype
         yield "data.shape", tuple(int(d) for d in a.shape)
